@@ -80,10 +80,9 @@ theorem scal_loadAcct {d m sc a m1} (h : loadAcct d m sc a = .ok m1) : Scal m1 =
     · cases h
     · split at h
       · cases h
-      · dsimp only at h
-        split at h
+      · split at h
         · cases h
-        · cases h; simp [scal_updScope, scal_keyToManaged]
+        · cases h; simp [loadAcctRow, scal_updScope, scal_keyToManaged]
 
 theorem scal_chainRow {d m sc a b i r} (h : chainRowToManaged d m sc a b i = .ok r) : Scal r.1 = Scal m := by
   unfold chainRowToManaged at h
@@ -171,17 +170,19 @@ theorem scal_nextAddresses (d : Disk) (m : Mem) (sc a n : Nat) (int : Bool) :
           · rename_i hp; rw [hp] at key; simp only at key; rw [key, scal_mkAddrs, h1]
           · rename_i hp; rw [hp] at key; simp only at key; rw [key, scal_mkAddrs, h1]
 
-theorem scal_runPend (m : Mem) (p : Pend) : Scal (runPend m p) = Scal m := by
+theorem scal_runPend (cfg : Cfg) (m : Mem) (p : Pend) : Scal (runPend cfg m p) = Scal m := by
   unfold runPend
   have h1 : ∀ m0 : Mem, Scal (p.infos.foldl (cacheNew p.scope p.watchOnly) m0) = Scal m0 :=
     fun m0 => scal_foldl _ _ _ (scal_cacheNew _ _)
   dsimp only
+  have h0 : ∀ (b : Bool) (x : Mem), Scal x = Scal m → Scal (if b then x else m) = Scal m := by
+    intro b x hx; cases b <;> simp [hx]
   split
-  · rw [scal_updScope]; exact h1 m
-  · exact h1 m
+  · rw [scal_updScope, h1]; split <;> rfl
+  · rw [h1]; split <;> rfl
 
-theorem scal_foldl_runPend (ps : List Pend) (m : Mem) : Scal (ps.foldl runPend m) = Scal m :=
-  scal_foldl ps m runPend scal_runPend
+theorem scal_foldl_runPend (cfg : Cfg) (ps : List Pend) (m : Mem) : Scal (ps.foldl (runPend cfg) m) = Scal m :=
+  scal_foldl ps m (runPend cfg) (scal_runPend cfg)
 
 theorem scal_extend (cfg : Cfg) (d : Disk) (m : Mem) (sc a li : Nat) (int : Bool) :
     Scal (extendAddresses cfg d m sc a li int).2.1 = Scal m := by
